@@ -54,6 +54,7 @@ class Contract:
         self.facts = list(g('facts', []))
         self.havoc_shapes = dict(g('havoc_shapes', {}))   # {attribute path: Shape} used whenever the path is havocked
         self.rep_reader = g('rep_reader', False)     # may read (not write) representation fields directly
+        self.pure_fn = g('pure', False)             # reads only (no stream is moved, nothing is modified): checked by the frame check + position comparison
         self.axioms = list(g('axioms', []))     # definitional axioms of specification functions (assumed at entry, listed)
         self.notes = g('notes', '')
         self.assumes = list(g('assumes', []))
